@@ -2,7 +2,8 @@
    All py_* functions are REGENERATED from the Python sources on every run. *)
 From Coq Require Import List ZArith QArith Qabs Bool String Reals Qreals Qcanon.
 From BZ Require Import Base.PyVal Model.Hull Gen.PyFnHelpers Gen.PyFnGeometric Gen.PyFnTriangle
-  Theory.Predicates Theory.HullTheory Base.Ops Base.RInst Model.Curve Model.LinErr Gen.PyGeometricIntersection Theory.Hom Theory.LinError Theory.LinErrorQc.
+  Theory.Predicates Theory.HullTheory Base.Ops Base.RInst Model.Curve Model.LinErr Gen.PyGeometricIntersection Theory.Hom Theory.LinError Theory.LinErrorQc
+  Gen.PyFnClipping Model.Clip Theory.ClipSpec Theory.ClipHull Theory.ClipSound.
 Import ListNotations.
 Open Scope Q_scope.
 
@@ -114,3 +115,42 @@ Theorem C16_chord_deviation_bound :
   (Rabs (bernstein ROps v (1 - s) s - ((1 - s) * hd 0 v + s * last v 0)) <= M * INR (List.length v - 1) * (INR (List.length v - 1) - 1) / 8)%R.
 Proof. exact linearization_bound. Qed.
 Print Assumptions C16_chord_deviation_bound.
+
+(* clipping range: the value returned by (the model of) clip_range never rejects a true hit.  Exact data, every degree of
+   both curves, every real pair of parameters; a chord of the distance polygon parallel to the fat line makes the function raise
+   (then nothing is returned and nothing is claimed).  The per-chord update and the implicit line are the REGENERATED
+   py__update_parameters / py_compute_implicit_line; the loops are the hand model Model/Clip.v (tied by correspondence). *)
+Theorem C16_clip_range_never_rejects_a_true_hit :
+  forall (x1 y1 x2 y2 : list Q) (smin smax : Q),
+  List.length x1 = List.length y1 -> (2 <= List.length x1)%nat -> List.length x2 = List.length y2 -> (2 <= List.length x2)%nat ->
+  clip_range x1 y1 x2 y2 = VTup [VQ smin; VQ smax] ->
+  forall s t : R, (0 <= s <= 1)%R -> (0 <= t <= 1)%R -> BR x1 s = BR x2 t -> BR y1 s = BR y2 t ->
+  (Q2R smin <= t <= Q2R smax)%R.
+Proof. exact clip_range_sound. Qed.
+Print Assumptions C16_clip_range_never_rejects_a_true_hit.
+(* the regenerated per-chord update: raises exactly on a parallel chord; otherwise the range only grows towards the crossing *)
+Theorem C16_update_parameters_exact : forall smin smax m l xi di xj dj,
+  let cross := (m - 0) * (dj - di) - (l - l) * (xj - xi) in
+  (cross == 0 ->
+   py__update_parameters (VQ smin) (VQ smax) (V2 0 l) (V2 m l) (V2 xi di) (V2 xj dj) = VErr "NotImplementedError") /\
+  (~ cross == 0 -> exists s t smin' smax',
+   py__update_parameters (VQ smin) (VQ smax) (V2 0 l) (V2 m l) (V2 xi di) (V2 xj dj) = VTup [VQ smin'; VQ smax'] /\
+   s * m == xi + t * (xj - xi) /\ t * (dj - di) == l - di /\
+   smin' <= smin /\ smax <= smax' /\
+   (0 <= t <= 1 -> 0 <= s -> smin' <= s) /\ (0 <= t <= 1 -> s <= 1 -> s <= smax')).
+Proof. exact update_parameters_spec. Qed.
+Print Assumptions C16_update_parameters_exact.
+(* the fat line contains the control polygon of the first curve (hence, by the convex hull property, the curve) *)
+Theorem C16_fat_line_contains_control_points : forall x0 xs y0 ys a b c lo hi,
+  List.length xs = List.length ys -> (1 <= List.length xs)%nat ->
+  fat_line (x0 :: xs) (y0 :: ys) = Some (a, b, c, lo, hi) ->
+  a == - (last (y0 :: ys) 0 - y0) /\ b == last (x0 :: xs) 0 - x0 /\
+  c == (last (y0 :: ys) 0 - y0) * x0 - (last (x0 :: xs) 0 - x0) * y0 /\
+  lo <= 0 <= hi /\ Forall (fun d => lo <= d <= hi) (dists a b c (x0 :: xs) (y0 :: ys)).
+Proof. exact fat_line_spec. Qed.
+Print Assumptions C16_fat_line_contains_control_points.
+(* non-vacuity: the example of the docstring returns (1/4, 7/8) in the model *)
+Example C16_clip_range_docstring_example : exists smin smax,
+  clip_range [2; 4.5; 2.5; 5] [0; 1; 3; 4] [-0.25; 3.75; 7] [3.125; 0.875; 3.125] = VTup [VQ smin; VQ smax] /\
+  smin == 1 # 4 /\ smax == 7 # 8.
+Proof. eexists; eexists. split; [vm_compute; reflexivity|]. split; reflexivity. Qed.
